@@ -370,6 +370,65 @@ pub struct DrawPlan {
 }
 
 /// Builds `m…;c;m…;c;…;d` with `c` after every action.
+/// A history whose third occurrence of the start position lies FAR from the first two, inside one quiet stretch:
+/// a short loop (each side one reversible move out and back: second occurrence after 4 half-moves), then a long loop
+/// (each side `k` reversible moves out, then the same moves undone in reverse order: third occurrence after 4 + 4k
+/// half-moves, 13 <= k <= 23, so the fifty-move count stays below 100).  `can_declare_draw` is queried after every move.
+/// `None` when an undo is not legal on the way back (a slider's way home blocked, a check) - the caller tries again.
+pub fn far_repetition_program(rng: &mut Rng, start: &Board) -> Option<Vec<Act>> {
+    fn walk(rng: &mut Rng, b0: &Board, k: usize, acts: &mut Vec<Act>) -> Option<Board> {
+        let mut b = *b0;
+        let mut outw: [Vec<ChessMove>; 2] = [Vec::new(), Vec::new()];
+        for _ in 0..(2 * k) {
+            let ms = moves_of(&b)?;
+            let me = b.side_to_move().to_index();
+            // reversible, and not the undo of the mover's previous move (the walk should wander)
+            let cand: Vec<ChessMove> = ms
+                .iter()
+                .cloned()
+                .filter(|m| is_reversible(&b, *m) && b.castle_rights(b.side_to_move()).to_index() == 0 || {
+                    let p = b.piece_on(m.get_source());
+                    is_reversible(&b, *m) && p != Some(Piece::King) && p != Some(Piece::Rook)
+                })
+                .filter(|m| outw[me].last().map(|l| !(l.get_source() == m.get_dest() && l.get_dest() == m.get_source())).unwrap_or(true))
+                .collect();
+            if cand.is_empty() {
+                return None;
+            }
+            let m = cand[rng.below(cand.len())];
+            acts.push(Act::M(m));
+            acts.push(Act::Can);
+            outw[me].push(m);
+            b = guard(|| b.make_move_new(m))?;
+        }
+        // back: each side undoes its own moves in reverse order
+        for _ in 0..(2 * k) {
+            let me = b.side_to_move().to_index();
+            let l = outw[me].pop()?;
+            let u = ChessMove::new(l.get_dest(), l.get_source(), None);
+            if !guard(|| b.legal(u)).unwrap_or(false) || !is_reversible(&b, u) {
+                return None;
+            }
+            acts.push(Act::M(u));
+            acts.push(Act::Can);
+            b = guard(|| b.make_move_new(u))?;
+        }
+        Some(b)
+    }
+    let mut acts = vec![Act::Can];
+    let b1 = walk(rng, start, 1, &mut acts)?;
+    let k = 13 + rng.below(11);
+    let b2 = walk(rng, &b1, k, &mut acts)?;
+    if b2 != *start {
+        return None;
+    }
+    // sometimes go on: a few more moves and the claim itself
+    if rng.chance(1, 2) {
+        acts.push(Act::Declare);
+    }
+    Some(acts)
+}
+
 pub fn draw_program(rng: &mut Rng, start: &Board, plan: &DrawPlan) -> Vec<Act> {
     let mut acts = Vec::new();
     let mut b = *start;
